@@ -26,7 +26,7 @@ func bi(s string) *big.Int {
 }
 
 func add(a *big.Int, d int64) *big.Int { return new(big.Int).Add(a, big.NewInt(d)) }
-func pow2(k uint) *big.Int              { return new(big.Int).Lsh(big.NewInt(1), k) }
+func pow2(k uint) *big.Int             { return new(big.Int).Lsh(big.NewInt(1), k) }
 
 func digest(label string, i int) *big.Int {
 	h := sha256.Sum256([]byte(fmt.Sprintf("verif/%s/%d", label, i)))
